@@ -380,93 +380,100 @@ def run(chk: Check) -> None:
         plan = extra + plan
     t0 = time.time()
     budget = 100 if not thorough else 1500
-    done, lines = [], []
     raised: dict = {}
-    for d, cfg in plan + [(d, dict(c, _explore=True)) for d, c in explore]:
-        if time.time() - t0 > budget:
-            break
-        is_explore = cfg.pop("_explore", False)
-        ex = progs.export(d, cfg)
-        if not ex.ok:
-            k = ex.error.split(":")[0]
-            raised[k] = raised.get(k, 0) + 1
-            continue
-        tree = modeltree.from_proto(ex.proto, with_vinfo=False)
-        done.append((ex, tree, is_explore))
-        lines.append(modeltree.request("legal", tree))
-    chk.log(f"phase export done at {round(time.time() - chk.t0, 1)} s ({len(done)} models)")
-    answers = common.run_driver("C11", lines) if proved or True else []
-    chk.log(f"phase driver done at {round(time.time() - chk.t0, 1)} s")
-    chk.coverage["programs"] = len(done)
-    chk.info("exports", {"planned": len(plan) + len(explore), "exported": len(done), "export_raised": raised})
-
     rng_np = np.random.default_rng(chk.seed)
     limitations: dict = {}
     per_opset: dict = {}
     explored_illegal: list = []
     concrete = 0
     n_numeric = 0
-    for (ex, tree, is_explore), ans in zip(done, answers):
-        v = int(ex.cfg["opset"])
-        ctx_, comp = _component_of(ex.desc)
-        ops = sorted({n["op"] for _, n in modeltree.iter_nodes(tree)})
-        per_opset[v] = per_opset.get(v, 0) + 1
-        chk.count({"program": progs.describe(ex.desc), "opset": v, "ops": ops[:12]},
-                  nontrivial=(v != 23) and not is_explore)
-        if ans == "true":
-            reasons = []
-        elif ans.startswith("["):
-            reasons = json.loads(ans)
-        else:
-            raise RuntimeError(f"driver C11: {ans[:300]}")
-        if is_explore:
-            if reasons:
-                explored_illegal.append({"program": progs.describe(ex.desc), "opset": v, "why": reasons[:3]})
-            continue
-        for r in reasons:
-            wher, dom, op, why = (r.split("|") + ["", "", "", ""])[:4]
-            concrete += 1
-            chk.finding({"kind": "op_not_in_opset", "op_type": op, "why": why.split(" ")[0],
-                         "context": ctx_, "component": comp, "opset": v},
-                        f"{progs.describe(ex.desc)} exported at opset {v}: {op} {why}",
-                        {"program": ex.desc, "config": ex.cfg, "reasons": reasons[:10]})
-        # oracles
-        fails = []
-        try:
-            import onnx
-            onnx.checker.check_model(ex.proto, full_check=True)
-        except Exception as e:
-            fails.append({"oracle": "onnx.checker", "msg": str(e)[:400]})
-        _, f, lim = oracles.ort_load(ex.proto)
-        if f:
-            fails.append(f)
-        if lim:
-            limitations[lim.split(":")[0]] = limitations.get(lim.split(":")[0], 0) + 1
-        for f in fails:
-            # an oracle failure explained by an operator the proven checker already flagged is the
-            # same finding; anything else is reported on its own
-            blamed = [r.split("|")[2] for r in reasons if r.split("|")[2] and r.split("|")[2] in f["msg"]]
-            key = {"kind": "oracle_rejects", "oracle": f["oracle"], "context": ctx_, "component": comp, "opset": v}
-            if blamed:
-                key = {"kind": "op_not_in_opset", "op_type": blamed[0], "why": "oracle", "context": ctx_,
-                       "component": comp, "opset": v, "oracle": f["oracle"]}
-            concrete += 1
-            chk.finding(key, f"{f['oracle']} rejects {progs.describe(ex.desc)} at opset {v}: {f['msg'][:160]}",
-                        {"program": ex.desc, "config": ex.cfg, "oracle": f, "checker_reasons": reasons[:5]})
-        # numeric agreement with the default-opset export (sampled)
-        if not reasons and not fails and v != 23 and (thorough or n_numeric < 60):
-            ref = progs.export(ex.desc, dict(ex.cfg, opset=23))
-            if ref.ok:
-                n_numeric += 1
-                dis = numeric_agreement(ex, ref, rng_np)
-                if dis is not None:
-                    concrete += 1
-                    chk.finding({"kind": "numeric_mismatch_across_opsets", "context": ctx_, "component": comp,
-                                 "opset": v},
-                                f"{progs.describe(ex.desc)}: opset {v} export computes something else than the "
-                                f"opset 23 export: {dis}",
-                                {"program": ex.desc, "config": ex.cfg, "disagreement": dis})
-    chk.add("traces_validated_against_impl", len(done))
+    n_done = 0
+    full_plan = plan + [(d, dict(c, _explore=True)) for d, c in explore]
+    for chunk in progs.chunks(full_plan, 600):
+        if time.time() - t0 > budget:
+            break
+        done, lines = [], []
+        for d, cfg in chunk:
+            if time.time() - t0 > budget:
+                break
+            cfg = dict(cfg)
+            is_explore = cfg.pop("_explore", False)
+            ex = progs.export(d, cfg)
+            if not ex.ok:
+                k = ex.error.split(":")[0]
+                raised[k] = raised.get(k, 0) + 1
+                continue
+            tree = modeltree.from_proto(ex.proto, with_vinfo=False)
+            done.append((ex, tree, is_explore))
+            lines.append(modeltree.request("legal", tree))
+        answers = common.run_driver("C11", lines)
+        n_done += len(done)
+        for (ex, tree, is_explore), ans in zip(done, answers):
+            v = int(ex.cfg["opset"])
+            ctx_, comp = _component_of(ex.desc)
+            ops = sorted({n["op"] for _, n in modeltree.iter_nodes(tree)})
+            per_opset[v] = per_opset.get(v, 0) + 1
+            chk.count({"program": progs.describe(ex.desc), "opset": v, "ops": ops[:12]},
+                      nontrivial=(v != 23) and not is_explore)
+            if ans == "true":
+                reasons = []
+            elif ans.startswith("["):
+                reasons = json.loads(ans)
+            else:
+                raise RuntimeError(f"driver C11: {ans[:300]}")
+            if is_explore:
+                if reasons:
+                    explored_illegal.append({"program": progs.describe(ex.desc), "opset": v, "why": reasons[:3]})
+                continue
+            for r in reasons:
+                wher, dom, op, why = (r.split("|") + ["", "", "", ""])[:4]
+                concrete += 1
+                chk.finding({"kind": "op_not_in_opset", "op_type": op, "why": why.split(" ")[0],
+                             "context": ctx_, "component": comp, "opset": v},
+                            f"{progs.describe(ex.desc)} exported at opset {v}: {op} {why}",
+                            {"program": ex.desc, "config": ex.cfg, "reasons": reasons[:10]})
+            # oracles
+            fails = []
+            try:
+                import onnx
+                onnx.checker.check_model(ex.proto, full_check=True)
+            except Exception as e:
+                fails.append({"oracle": "onnx.checker", "msg": str(e)[:400]})
+            _, f, lim = oracles.ort_load(ex.proto)
+            if f:
+                fails.append(f)
+            if lim:
+                limitations[lim.split(":")[0]] = limitations.get(lim.split(":")[0], 0) + 1
+            for f in fails:
+                # an oracle failure explained by an operator the proven checker already flagged is the
+                # same finding; anything else is reported on its own
+                blamed = [r.split("|")[2] for r in reasons if r.split("|")[2] and r.split("|")[2] in f["msg"]]
+                key = {"kind": "oracle_rejects", "oracle": f["oracle"], "context": ctx_, "component": comp,
+                       "opset": v}
+                if blamed:
+                    key = {"kind": "op_not_in_opset", "op_type": blamed[0], "why": "oracle", "context": ctx_,
+                           "component": comp, "opset": v, "oracle": f["oracle"]}
+                concrete += 1
+                chk.finding(key, f"{f['oracle']} rejects {progs.describe(ex.desc)} at opset {v}: {f['msg'][:160]}",
+                            {"program": ex.desc, "config": ex.cfg, "oracle": f, "checker_reasons": reasons[:5]})
+            # numeric agreement with the default-opset export (sampled)
+            if not reasons and not fails and v != 23 and n_numeric < (60 if not thorough else 1500):
+                ref = progs.export(ex.desc, dict(ex.cfg, opset=23))
+                if ref.ok:
+                    n_numeric += 1
+                    dis = numeric_agreement(ex, ref, rng_np)
+                    if dis is not None:
+                        concrete += 1
+                        chk.finding({"kind": "numeric_mismatch_across_opsets", "context": ctx_, "component": comp,
+                                     "opset": v},
+                                    f"{progs.describe(ex.desc)}: opset {v} export computes something else than "
+                                    f"the opset 23 export: {dis}",
+                                    {"program": ex.desc, "config": ex.cfg, "disagreement": dis})
+        progs.clear_cache()
+        chk.log(f"{n_done} models checked at {round(time.time() - chk.t0, 1)} s")
+    chk.coverage["programs"] = n_done
+    chk.info("exports", {"planned": len(full_plan), "exported": n_done, "export_raised": raised})
+    chk.add("traces_validated_against_impl", n_done)
     chk.info("exports_per_opset", {str(k): v for k, v in sorted(per_opset.items())})
     chk.info("numeric_comparisons_with_default_opset", n_numeric)
     chk.info("runtime_limitations_not_counted_as_failures", limitations)
